@@ -91,6 +91,7 @@ def run(ck: Checker):
     ck.floor('C09.ADD-ONLY', 15)
     ck.floor('C09.HOST-IN', 8)
     R.check_args(ck, eff, 'C09.ARGS', MODULES)
+    R.check_multiset(ck, 'C09.ARGS', MODULES)
     ck.floor('C09.ARGS', 25)
     R.check_endian(ck, 'C09.ENDIAN', MODULES, public, ENDIAN_EXEMPT)
     ck.floor('C09.ENDIAN', 8)
@@ -101,7 +102,7 @@ def run(ck: Checker):
     ck.rule('C09.FOLD', 'for-range templates instantiated for every small width that exhibits each index case (i < len(b), i >= len(b), i == len(in), i > len(in), first/last), on a host circuit that already has gates and outputs: '
                         'add_equal (constant fits / does not fit), add_plus_one (every in/out width <= 3/4, both endiannesses, with and without outputs), add_sub_two_numbers (widths <= 3 x 3, both endiannesses)')
     fold_templates(ck, B)
-    ck.floor('C09.FOLD', 3)
+    ck.floor('C09.FOLD', 6)
 
     ck.assume('NOT DECIDED: exactness of subtraction chains, division, square root, the equality gadget and the plus-one carry chain (loop-built arithmetic)')
 
@@ -226,3 +227,105 @@ def fold_templates(ck: Checker, B):
                     probs.append('add_sub_two_numbers changed the outputs of the host')
     ck.check(not probs, 'C09.FOLD', sm, sm.func('add_sub_two_numbers'), f'add_sub_two_numbers: (a - b) mod 2^len(a) for widths up to 4 x 3, both endiannesses ({n_cases} instances)',
              '; '.join(probs[:3]), construct='add_sub_two_numbers template')
+
+    # add_subtract_with_compare (padding loop + for-range chain of add_sub2/add_sub3 netlists)
+    probs = []
+    n_cases = 0
+    for na in (1, 2, 3):
+        for nb in (1, 2, 3):
+            for be in (False, True):
+                n_cases += 1
+                try:
+                    c, names = host(na + nb)
+                    res, flag = B.run(sm.name, 'add_subtract_with_compare', c, list(names[:na]), list(names[na:]), big_endian=be)
+                except InterpRaise as e:
+                    probs.append(f'add_subtract_with_compare({na}, {nb}, big_endian={be}) raises {e.exc_name}')
+                    continue
+                w = max(na, nb)
+                if len(res) != w or any(r not in c._gates for r in list(res) + [flag]):
+                    probs.append(f'add_subtract_with_compare(widths {na},{nb}, big_endian={be}): {len(res)} result bits / labels of missing gates')
+                    continue
+                for vals in semantics.bools(na + nb):
+                    a_ = dict(zip(names, vals))
+                    A, Bv = _num(vals[:na], be), _num(vals[na:], be)
+                    got = _num([c.evaluate(r, a_) for r in res], be)
+                    fl = c.evaluate(flag, a_)
+                    if got != (A - Bv) % (1 << w) or fl != (A < Bv):
+                        probs.append(f'add_subtract_with_compare(widths {na},{nb}, big_endian={be}): {A} - {Bv} gives {got} with borrow flag {fl}')
+                        break
+                if c._outputs != ['own'] or c._inputs != names:
+                    probs.append('add_subtract_with_compare changed the interface of the host')
+    ck.check(not probs, 'C09.FOLD', sm, sm.func('add_subtract_with_compare'), f'add_subtract_with_compare: (a - b) mod 2^max(len) and a flag that is True exactly when a < b, widths up to 3 x 3, both endiannesses ({n_cases} instances)',
+             '; '.join(probs[:3]), construct='add_subtract_with_compare template')
+
+    # add_div_mod (for-range shift-and-subtract over the folded subtractor)
+    dm = repo.mod(R.ARITH + '.div_mod')
+    probs = []
+    n_cases = 0
+    for n in (1, 2, 3):
+        for be in (False, True):
+            n_cases += 1
+            try:
+                c, names = host(2 * n)
+                la, lb = list(names[:n]), list(names[n:])
+                q, r = B.run(dm.name, 'add_div_mod', c, la, lb, big_endian=be)
+            except InterpRaise as e:
+                probs.append(f'add_div_mod(width {n}, big_endian={be}) raises {e.exc_name}')
+                continue
+            if la != names[:n] or lb != names[n:]:
+                probs.append(f'add_div_mod(width {n}, big_endian={be}) modified the caller\'s operand lists')
+            if len(q) != n or len(r) != n or any(x not in c._gates for x in list(q) + list(r)):
+                probs.append(f'add_div_mod(width {n}, big_endian={be}): result widths {len(q)},{len(r)} / labels of missing gates')
+                continue
+            for vals in semantics.bools(2 * n):
+                a_ = dict(zip(names, vals))
+                A, Bv = _num(vals[:n], be), _num(vals[n:], be)
+                gq = _num([c.evaluate(x, a_) for x in q], be)
+                gr = _num([c.evaluate(x, a_) for x in r], be)
+                want = (A // Bv, A % Bv) if Bv else (0, 0)
+                if (gq, gr) != want:
+                    probs.append(f'add_div_mod(width {n}, big_endian={be}): {A} divmod {Bv} gives {(gq, gr)}, expected {want}')
+                    break
+            if c._outputs != ['own'] or c._inputs != names:
+                probs.append('add_div_mod changed the interface of the host')
+    ck.check(not probs, 'C09.FOLD', dm, dm.func('add_div_mod'), f'add_div_mod: (a // b, a mod b), and (0, 0) for b = 0, widths up to 3, both endiannesses ({n_cases} instances)',
+             '; '.join(probs[:3]), construct='add_div_mod template')
+
+    # add_sqrt (the bit counters it calls are replaced by their contract)
+    from ..gadgets import GadgetBench
+    from ..tables import Denotations
+    Bc = GadgetBench(repo, Denotations(repo), contracts=True)
+
+    def host_c(n_in):
+        c, names = Bc.host(n_in)
+        c.emplace_gate('own', T['OR'], (names[0], names[0]))
+        c._outputs.append('own')
+        return c, names
+    qm = repo.mod(R.ARITH + '.sqrt')
+    probs = []
+    n_cases = 0
+    import math
+    for n in (1, 2, 3, 4, 5):
+        for be in (False, True):
+            n_cases += 1
+            try:
+                c, names = host_c(n)
+                lx = list(names)
+                res = Bc.run(qm.name, 'add_sqrt', c, lx, big_endian=be)
+            except InterpRaise as e:
+                probs.append(f'add_sqrt(width {n}, big_endian={be}) raises {e.exc_name}')
+                continue
+            if len(res) != (n + 1) // 2 or any(x not in c._gates for x in res):
+                probs.append(f'add_sqrt(width {n}, big_endian={be}): {len(res)} result bits / labels of missing gates')
+                continue
+            for vals in semantics.bools(n):
+                a_ = dict(zip(names, vals))
+                X = _num(vals, be)
+                got = _num([c.evaluate(x, a_) for x in res], be)
+                if got != math.isqrt(X):
+                    probs.append(f'add_sqrt(width {n}, big_endian={be}): sqrt({X}) gives {got}')
+                    break
+            if c._outputs != ['own'] or c._inputs != names:
+                probs.append('add_sqrt changed the interface of the host')
+    ck.check(not probs, 'C09.FOLD', qm, qm.func('add_sqrt'), f'add_sqrt: floor(sqrt(x)) on ceil(n/2) bits, widths up to 5, both endiannesses ({n_cases} instances)',
+             '; '.join(probs[:3]), construct='add_sqrt template')
